@@ -7,7 +7,7 @@ import random
 import traceback
 import numpy as np
 
-from harness import circgen as cg, oracle_net as on
+from harness import circgen as cg, oracle_net as on, cell_corr
 from harness import circuit_view_corr as vc
 
 # copy / pickle / eliminate_1to1_forks over the edit model Model/Circuit.v (substitute / resolve: differential testing below)
@@ -18,6 +18,10 @@ THEOREMS = ['C10_view_wf', 'C10_history_view_wf',
             'C10_sem_lut_buf',
             'C10_eliminate_s_names', 'C10_eliminate_s_names_perm', 'C10_eliminate_state_order_refuted',
             'C10_eliminate_order_kept', 'C10_state_first_b_sound', 'C10_order_kept_example', 'C10_example_solution']
+# library clause (Properties/C10Lib.v): every cell definition of the five libraries x {all pins connected (every name), every
+# single pin unconnected (first name), no output connected (every name)}; exceptions = known findings D15 / D21 / D22, each
+# with a *_refuted theorem
+THEOREMS_LIB = cell_corr.THEOREMS_LIB
 
 
 def s_names(c):
@@ -401,6 +405,7 @@ def run(ck):
     if THEOREMS:
         ck.prove('C10', THEOREMS)
     view_correspondence(ck)
+    cell_corr.run_lib(ck)      # ck.prove('C10Lib', THEOREMS_LIB) + exhaustive library correspondence / oracle
     rng = random.Random(ck.seed * 7919 + 10)
     fails = []
     for i in range(ck.scale(60, 1500)):
@@ -463,6 +468,8 @@ def run(ck):
 def replay(rp):
     from kyupy import techlib
     inp = rp['input']
+    if inp.get('kind') == 'resolve-lib':
+        return cell_corr.replay(inp)
     if 'view_ops' in inp:
         rng = random.Random(0)
         h = vc.run_view_history(rng, 0, fixed_ops=inp['view_ops'], n_force=inp.get('n_force', 0), observe_from=inp.get('observe_from', 0))
